@@ -43,6 +43,9 @@ MC_HistCases ==
         w \in {x \in Wires : x.kind \in {"MakeCredential", "ClientPin", "Reset", "GetInfo", "LargeBlobs", ""}},
         s \in Scripts, cap \in {64, 7609}}
 
+\* long random sessions (tlc -simulate): one transport buffer of 256 bytes, any request, any outcome
+MC_SimCases == {XCase(w, s, lb, 256) : w \in Wires, s \in Scripts, lb \in BOOLEAN}
+
 (***************************************************************************)
 (* Exchange-level properties                                               *)
 (***************************************************************************)
